@@ -604,23 +604,25 @@ impl CraneliftCompiler {
                         _ => unreachable!(),
                     };
 
-                    if should_swap {
-                        let src = self.insn_dst(bcx, &insn);
-                        let src_narrow = if ty != I64 {
-                            bcx.ins().ireduce(ty, src)
-                        } else {
-                            src
-                        };
+                    let src = self.insn_dst(bcx, &insn);
+                    let src_narrow = if ty != I64 {
+                        bcx.ins().ireduce(ty, src)
+                    } else {
+                        src
+                    };
 
-                        let res = bcx.ins().bswap(src_narrow);
-                        let res_wide = if ty != I64 {
-                            bcx.ins().uextend(I64, res)
-                        } else {
-                            res
-                        };
+                    let res = if should_swap {
+                        bcx.ins().bswap(src_narrow)
+                    } else {
+                        src_narrow
+                    };
+                    let res_wide = if ty != I64 {
+                        bcx.ins().uextend(I64, res)
+                    } else {
+                        res
+                    };
 
-                        self.set_dst(bcx, &insn, res_wide);
-                    }
+                    self.set_dst(bcx, &insn, res_wide);
                 }
 
                 // BPF_ALU64 class
